@@ -160,6 +160,132 @@ Proof.
   apply G. constructor.
 Qed.
 
+(* insertion sort by a comparison that refines an integer key gives a list ordered by the key *)
+Lemma insert_by_key_sorted_gen {A} (f : A -> Z) (lt : A -> A -> bool)
+  (H1 : forall a b, lt a b = true -> f a <= f b) (H2 : forall a b, lt a b = false -> f b <= f a) x : forall l,
+  StronglySorted Z.le (map f l) -> StronglySorted Z.le (map f (insert_by lt x l)).
+Proof.
+  induction l as [|y ys IH]; intros Hs; cbn [insert_by map].
+  - constructor; constructor.
+  - cbn [map] in Hs. inversion Hs as [|? ? Hs' Hall]; subst.
+    destruct (lt x y) eqn:E; cbn [map].
+    + apply H1 in E. constructor; [exact Hs|]. constructor; [lia|].
+      rewrite Forall_forall in *. intros z Hz. specialize (Hall z Hz). lia.
+    + apply H2 in E. constructor; [apply IH; exact Hs'|].
+      rewrite Forall_forall in *. intros z Hz. apply in_map_iff in Hz. destruct Hz as [w [Hw Hz]].
+      apply insert_by_In in Hz. destruct Hz as [Hz|Hz].
+      * subst. lia.
+      * apply Hall. apply in_map_iff. exists w. tauto.
+Qed.
+
+Lemma sort_by_key_sorted_gen {A} (f : A -> Z) (lt : A -> A -> bool)
+  (H1 : forall a b, lt a b = true -> f a <= f b) (H2 : forall a b, lt a b = false -> f b <= f a) (l : list A) :
+  StronglySorted Z.le (map f (sort_by lt l)).
+Proof.
+  unfold sort_by.
+  assert (G : forall l acc, StronglySorted Z.le (map f acc) ->
+              StronglySorted Z.le (map f (fold_left (fun acc x => insert_by lt x acc) l acc))).
+  { clear l. induction l as [|x xs IH]; intros acc Hs; cbn [fold_left]; [exact Hs|].
+    apply IH. apply insert_by_key_sorted_gen; assumption. }
+  apply G. constructor.
+Qed.
+
+(* the insertion sort permutes its input *)
+Lemma insert_by_perm {A} (lt : A -> A -> bool) x : forall l, Permutation (insert_by lt x l) (x :: l).
+Proof.
+  induction l as [|y ys IH]; cbn [insert_by]; [apply Permutation_refl|].
+  destruct (lt x y); [apply Permutation_refl|].
+  apply Permutation_trans with (y :: x :: ys); [apply perm_skip; exact IH|apply perm_swap].
+Qed.
+
+Lemma sort_by_perm {A} (lt : A -> A -> bool) (l : list A) : Permutation (sort_by lt l) l.
+Proof.
+  unfold sort_by.
+  assert (G : forall l acc, Permutation (fold_left (fun acc x => insert_by lt x acc) l acc) (l ++ acc)).
+  { clear l. induction l as [|x xs IH]; intros acc; cbn [fold_left app]; [apply Permutation_refl|].
+    apply Permutation_trans with (xs ++ insert_by lt x acc); [apply IH|].
+    apply Permutation_trans with (xs ++ x :: acc); [apply Permutation_app_head; apply insert_by_perm|].
+    apply Permutation_sym. apply Permutation_middle. }
+  rewrite <- (app_nil_r l) at 2. apply G.
+Qed.
+
+(* ... and, for a strict order that is total on the elements (ties are equal elements), the result
+   depends on the multiset only: duplicates allowed *)
+Definition wsorted {A} (lt : A -> A -> bool) (l : list A) : Prop :=
+  StronglySorted (fun a b => lt b a = false) l.
+
+Lemma insert_by_wsorted {A} (lt : A -> A -> bool) (P : A -> Prop)
+  (Hirr : forall a, lt a a = false)
+  (Htrans : forall a b c, P a -> P b -> P c -> lt a b = true -> lt b c = true -> lt a c = true) x :
+  forall l, P x -> Forall P l -> wsorted lt l -> wsorted lt (insert_by lt x l).
+Proof.
+  induction l as [|y ys IH]; intros Px HP Hs; cbn [insert_by].
+  - constructor; [constructor|constructor].
+  - inversion Hs as [|? ? Hs' Hall]; subst. inversion HP as [|? ? Py HP']; subst.
+    rewrite Forall_forall in Hall, HP'.
+    destruct (lt x y) eqn:E.
+    + constructor; [exact Hs|]. constructor.
+      * destruct (lt y x) eqn:E2; [|reflexivity].
+        pose proof (Htrans x y x Px Py Px E E2) as X. rewrite Hirr in X. discriminate.
+      * rewrite Forall_forall. intros z Hz. destruct (lt z x) eqn:E2; [|reflexivity].
+        pose proof (Htrans z x y (HP' z Hz) Px Py E2 E) as X. rewrite (Hall z Hz) in X. discriminate.
+    + constructor; [apply IH; [exact Px|rewrite Forall_forall; exact HP'|exact Hs']|].
+      rewrite Forall_forall. intros z Hz. apply insert_by_In in Hz. destruct Hz as [->|Hz]; [exact E|apply Hall; exact Hz].
+Qed.
+
+Lemma sort_by_wsorted {A} (lt : A -> A -> bool) (P : A -> Prop)
+  (Hirr : forall a, lt a a = false)
+  (Htrans : forall a b c, P a -> P b -> P c -> lt a b = true -> lt b c = true -> lt a c = true) (l : list A) :
+  Forall P l -> wsorted lt (sort_by lt l).
+Proof.
+  unfold sort_by.
+  assert (G : forall l acc, Forall P l -> Forall P acc -> wsorted lt acc ->
+              wsorted lt (fold_left (fun acc x => insert_by lt x acc) l acc)).
+  { clear l. induction l as [|x xs IH]; intros acc Hl Ha Hs; cbn [fold_left]; [exact Hs|].
+    inversion Hl as [|? ? Px Hxs]; subst. apply IH; [exact Hxs| |].
+    - rewrite Forall_forall in *. intros z Hz. apply insert_by_In in Hz. destruct Hz as [->|Hz]; [exact Px|apply Ha; exact Hz].
+    - apply (insert_by_wsorted lt P Hirr Htrans); assumption. }
+  intros Hl. apply G; [exact Hl|constructor|constructor].
+Qed.
+
+Lemma wsorted_perm_eq {A} (lt : A -> A -> bool) (P : A -> Prop)
+  (Htotal : forall a b, P a -> P b -> lt a b = false -> lt b a = false -> a = b) :
+  forall l1 l2, Forall P l1 -> wsorted lt l1 -> wsorted lt l2 -> Permutation l1 l2 -> l1 = l2.
+Proof.
+  induction l1 as [|a t1 IH]; intros l2 HP H1 H2 Hp.
+  - apply Permutation_nil in Hp. symmetry. exact Hp.
+  - destruct l2 as [|b t2]; [apply Permutation_sym in Hp; apply Permutation_nil in Hp; discriminate|].
+    inversion H1 as [|? ? H1' Ha]; subst. inversion H2 as [|? ? H2' Hb]; subst.
+    inversion HP as [|? ? Pa HP']; subst.
+    rewrite Forall_forall in Ha, Hb.
+    assert (Pb : P b).
+    { rewrite Forall_forall in HP. apply HP. apply (Permutation_in _ (Permutation_sym Hp)). left. reflexivity. }
+    assert (Hab : a = b).
+    { pose proof (Permutation_in _ Hp (or_introl eq_refl)) as Ia.
+      pose proof (Permutation_in _ (Permutation_sym Hp) (or_introl eq_refl)) as Ib.
+      destruct Ia as [E|Ia]; [symmetry; exact E|]. destruct Ib as [E|Ib]; [exact E|].
+      apply Htotal; [exact Pa|exact Pb|apply Hb; exact Ia|apply Ha; exact Ib]. }
+    subst b. f_equal. apply IH; [exact HP'|exact H1'|exact H2'|].
+    apply (Permutation_cons_inv Hp).
+Qed.
+
+Lemma sort_by_perm_eq {A} (lt : A -> A -> bool) (P : A -> Prop)
+  (Hirr : forall a, lt a a = false)
+  (Htrans : forall a b c, P a -> P b -> P c -> lt a b = true -> lt b c = true -> lt a c = true)
+  (Htotal : forall a b, P a -> P b -> lt a b = false -> lt b a = false -> a = b) :
+  forall l l', Forall P l -> Permutation l l' -> sort_by lt l = sort_by lt l'.
+Proof.
+  intros l l' HP Hp.
+  assert (HP' : Forall P l').
+  { rewrite Forall_forall in *. intros x Hx. apply HP. apply (Permutation_in _ (Permutation_sym Hp)). exact Hx. }
+  apply (wsorted_perm_eq lt P Htotal).
+  - rewrite Forall_forall in *. intros x Hx. apply HP. apply (Permutation_in _ (sort_by_perm lt l)). exact Hx.
+  - apply (sort_by_wsorted lt P Hirr Htrans). exact HP.
+  - apply (sort_by_wsorted lt P Hirr Htrans). exact HP'.
+  - apply Permutation_trans with l; [apply sort_by_perm|].
+    apply Permutation_trans with l'; [exact Hp|apply Permutation_sym; apply sort_by_perm].
+Qed.
+
 (* sublists *)
 Inductive sub {A} : list A -> list A -> Prop :=
 | sub_nil : sub [] []
@@ -184,6 +310,14 @@ Proof.
   - exact H12.
   - constructor. apply IH. exact H12.
   - inversion H12 as [|? ? ? H'|? ? ? H']; subst.
+    + apply sub_skip. apply IH. exact H'.
+    + apply sub_keep. apply IH. exact H'.
+Qed.
+Lemma sub_app_skip {A} (x : A) : forall p l r, sub l (p ++ r) -> sub l (p ++ x :: r).
+Proof.
+  induction p as [|a p IH]; intros l r H; cbn [app] in *.
+  - apply sub_skip. exact H.
+  - inversion H as [|? ? ? H'|? ? ? H']; subst.
     + apply sub_skip. apply IH. exact H'.
     + apply sub_keep. apply IH. exact H'.
 Qed.
@@ -334,9 +468,15 @@ Lemma sorted_st_sub l1 l2 : sub l1 l2 -> sorted_st l2 -> sorted_st l1.
 Proof. unfold sorted_st. intros H. apply sub_sorted. apply sub_map. exact H. Qed.
 
 Lemma merge_st a b : st (merge a b) = Z.min (st a) (st b).
-Proof. unfold merge. destruct (st a <? st b) eqn:E; cbn [st]; lia. Qed.
+Proof. reflexivity. Qed.
+Lemma merge_en a b : en (merge a b) = Z.max (en a) (en b).
+Proof. reflexivity. Qed.
+Lemma merge_sc a b : sc (merge a b) = Z.max (sc a) (sc b).
+Proof. reflexivity. Qed.
+Lemma merge_ev a b : ev (merge a b) = Z.min (ev a) (ev b).
+Proof. reflexivity. Qed.
 Lemma merge_prof a b : prof (merge a b) = prof a.
-Proof. unfold merge. destruct (st a <? st b); reflexivity. Qed.
+Proof. reflexivity. Qed.
 
 Lemma mn_starts L : forall rest cur, sorted_st (cur :: rest) ->
   sub (map st (mn L cur rest)) (map st (cur :: rest)).
@@ -532,20 +672,90 @@ Proof.
     destruct I1 as [x1 [X1 Y1]]. destruct I2 as [x2 [X2 Y2]]. destruct I3 as [x3 [X3 Y3]]. destruct I4 as [x4 [X4 Y4]].
     rewrite merge_prof.
     repeat split; apply existsb_exists.
-    + unfold merge. destruct (st a <? st b); cbn [st].
+    + rewrite merge_st. destruct (Z.min_spec (st a) (st b)) as [[_ ->]|[_ ->]].
       * exists x1. split; [exact X1|lia].
       * exists b. split; [exact Hb|lia].
-    + unfold merge. destruct (st a <? st b); cbn [en].
+    + rewrite merge_en. destruct (Z.max_spec (en a) (en b)) as [[_ ->]|[_ ->]].
       * exists b. split; [exact Hb|lia].
       * exists x2. split; [exact X2|lia].
-    + assert (E : sc (merge a b) = Z.max (sc a) (sc b)) by (unfold merge; destruct (st a <? st b); reflexivity).
-      rewrite E. destruct (Z.max_spec (sc a) (sc b)) as [[_ ->]|[_ ->]].
+    + rewrite merge_sc. destruct (Z.max_spec (sc a) (sc b)) as [[_ ->]|[_ ->]].
       * exists b. split; [exact Hb|lia].
       * exists x3. split; [exact X3|lia].
-    + assert (E : ev (merge a b) = Z.min (ev a) (ev b)) by (unfold merge; destruct (st a <? st b); reflexivity).
-      rewrite E. destruct (Z.min_spec (ev a) (ev b)) as [[_ ->]|[_ ->]].
+    + rewrite merge_ev. destruct (Z.min_spec (ev a) (ev b)) as [[_ ->]|[_ ->]].
       * exists x4. split; [exact X4|lia].
       * exists b. split; [exact Hb|lia].
+Qed.
+
+(* ------------------------------------------------------------------ the merge spans its fragments *)
+Definition coversP (h x : hit) : Prop := prof h = prof x /\ st h <= st x /\ en x <= en h.
+
+Lemma covers_iff h x : covers h x = true <-> coversP h x.
+Proof. unfold covers, coversP. lia. Qed.
+Lemma coversP_refl x : coversP x x.
+Proof. unfold coversP. lia. Qed.
+Lemma coversP_trans a b c : coversP a b -> coversP b c -> coversP a c.
+Proof. unfold coversP. lia. Qed.
+Lemma merge_covers_l a b : coversP (merge a b) a.
+Proof. unfold coversP. rewrite merge_prof, merge_st, merge_en. lia. Qed.
+Lemma merge_covers_r a b : prof a = prof b -> coversP (merge a b) b.
+Proof. unfold coversP. rewrite merge_prof, merge_st, merge_en. lia. Qed.
+
+(* _merge_immediate_neigbours loses no residue: whatever the current hit covers, and every later
+   hit, lies inside a hit of the result *)
+Lemma mn_covers L : forall rest cur,
+  (forall y, coversP cur y -> exists h, In h (mn L cur rest) /\ coversP h y) /\
+  (forall x, In x rest -> exists h, In h (mn L cur rest) /\ coversP h x).
+Proof.
+  induction rest as [|d ds IH]; intros cur; cbn [mn].
+  - split; [intros y Hy; exists cur; split; [left; reflexivity|exact Hy]|intros x []].
+  - assert (Keep : (forall y, coversP cur y -> exists h, In h (cur :: mn L d ds) /\ coversP h y) /\
+                   (forall x, In x (d :: ds) -> exists h, In h (cur :: mn L d ds) /\ coversP h x)).
+    { destruct (IH d) as [I1 I2]. split.
+      - intros y Hy. exists cur. split; [left; reflexivity|exact Hy].
+      - intros x [<-|Hx].
+        + destruct (I1 d (coversP_refl d)) as [h [Hh Hc]]. exists h. split; [right; exact Hh|exact Hc].
+        + destruct (I2 x Hx) as [h [Hh Hc]]. exists h. split; [right; exact Hh|exact Hc]. }
+    destruct (negb (prof d =? prof cur)) eqn:Ep; [exact Keep|].
+    destruct (2 * (en d - st cur) <? 3 * L (prof d)) eqn:Es; [|exact Keep].
+    destruct (IH (merge cur d)) as [I1 I2]. split.
+    + intros y Hy. apply I1. apply coversP_trans with cur; [apply merge_covers_l|exact Hy].
+    + intros x [<-|Hx]; [apply I1; apply merge_covers_r; lia|apply I2; exact Hx].
+Qed.
+
+(* the same for one category of _merge_domain_list *)
+Lemma mcat_covers L p : forall rest merged, prof merged = p -> (forall x, In x rest -> prof x = p) ->
+  (forall y, coversP merged y -> exists h, In h (mcat L p merged rest) /\ coversP h y) /\
+  (forall x, In x rest -> exists h, In h (mcat L p merged rest) /\ coversP h x).
+Proof.
+  induction rest as [|o os IH]; intros merged Hp Hr; cbn [mcat].
+  - split; [intros y Hy; exists merged; split; [left; reflexivity|exact Hy]|intros x []].
+  - assert (Ho : prof o = p) by (apply Hr; left; reflexivity).
+    assert (Hos : forall x, In x os -> prof x = p) by (intros x Hx; apply Hr; right; exact Hx).
+    destruct (2 * (en o - st merged) <? 3 * L p) eqn:Es.
+    + destruct (IH (merge merged o)) as [I1 I2]; [rewrite merge_prof; exact Hp|exact Hos|]. split.
+      * intros y Hy. apply I1. apply coversP_trans with merged; [apply merge_covers_l|exact Hy].
+      * intros x [<-|Hx]; [apply I1; apply merge_covers_r; congruence|apply I2; exact Hx].
+    + destruct (IH o Ho Hos) as [I1 I2]. split.
+      * intros y Hy. exists merged. split; [left; reflexivity|exact Hy].
+      * intros x [<-|Hx].
+        -- destruct (I1 o (coversP_refl o)) as [h [Hh Hc]]. exists h. split; [right; exact Hh|exact Hc].
+        -- destruct (I2 x Hx) as [h [Hh Hc]]. exists h. split; [right; exact Hh|exact Hc].
+Qed.
+
+Lemma merge_domain_list_covers L l x : In x l -> exists h, In h (merge_domain_list L l) /\ coversP h x.
+Proof.
+  intros Hx. unfold merge_domain_list.
+  assert (Hc : In x (category (prof x) l)) by (unfold category; apply filter_In; split; [exact Hx|lia]).
+  destruct (category (prof x) l) as [|c0 cs] eqn:Ec; [destruct Hc|].
+  assert (Hall : forall y, In y (c0 :: cs) -> prof y = prof x).
+  { intros y Hy. rewrite <- Ec in Hy. unfold category in Hy. apply filter_In in Hy. lia. }
+  destruct (mcat_covers L (prof x) cs c0) as [I1 I2];
+    [apply Hall; left; reflexivity|intros y Hy; apply Hall; right; exact Hy|].
+  assert (exists h, In h (mcat L (prof x) c0 cs) /\ coversP h x) as [h [Hh Hcov]].
+  { destruct Hc as [<-|Hc]; [apply I1; apply coversP_refl|apply I2; exact Hc]. }
+  exists h. split; [|exact Hcov]. rewrite sort_by_In. apply in_flat_map. exists (prof x). split.
+  - unfold profiles_of. apply (dedupe_In Z.eqb Z.eqb_eq). apply in_map. exact Hx.
+  - rewrite Ec. exact Hh.
 Qed.
 
 (* ------------------------------------------------------------------ remove_incomplete *)
@@ -570,6 +780,77 @@ Proof.
     + intros h Hh Hc. apply filter_In. tauto.
     + intros h Hh Hn. destruct (is_complete L h) eqn:Ec; [|reflexivity]. exfalso. apply Hn. apply filter_In. tauto.
     + intros _ h Hh. apply filter_In in Hh. tauto.
+Qed.
+
+(* neighbour mode: a complete hit that survives the overlap pass lies inside a returned hit *)
+Lemma refine_gene_coverage L reg l out : refine_gene true L reg l = Ok out -> gene_coverage L l out = true.
+Proof.
+  unfold refine_gene, gene_coverage.
+  destruct (canonical l) as [|c t] eqn:E; cbn [remove_overlapping_l bind]; [discriminate|].
+  destruct (ro L c t) as [|h' t'] eqn:Er; cbn [merge_neighbours_l bind]; [discriminate|].
+  intros H. inversion H; subst out. clear H.
+  apply forallb_forall. intros x Hx.
+  destruct (is_complete L x) eqn:Ec; [cbn [negb orb]|reflexivity].
+  apply existsb_exists.
+  destruct (mn_covers L t' h') as [I1 I2].
+  assert (exists h, In h (mn L h' t') /\ coversP h x) as [h [Hh Hc]].
+  { destruct Hx as [<-|Hx]; [apply I1; apply coversP_refl|apply I2; exact Hx]. }
+  exists h. split; [|apply covers_iff; exact Hc].
+  pose proof (remove_incomplete_spec L reg (mn L h' t')) as R. cbn zeta in R. destruct R as [_ [K _]].
+  apply K; [exact Hh|].
+  unfold is_complete, hlen in *. destruct Hc as [Hp [H1 H2]]. rewrite Hp. lia.
+Qed.
+
+Lemma find_none_intro {A} (f : A -> bool) : forall l, (forall x, In x l -> f x = false) -> find f l = None.
+Proof.
+  induction l as [|y ys IH]; intros H; cbn [find]; [reflexivity|].
+  rewrite (H y (or_introl eq_refl)). apply IH. intros x Hx. apply H. right. exact Hx.
+Qed.
+
+Definition nonempty_res (gr : Z * list hit) : bool := match snd gr with [] => false | _ => true end.
+
+Lemma mapM_refine_out_of nb L reg l : forall gs per, NoDup gs ->
+  mapM (fun g => do r <- refine_gene nb L reg (hits_of g l); Ok (g, r)) gs = Ok per ->
+  (forall gr, In gr per -> In (fst gr) gs) /\
+  forall g, In g gs -> exists r, refine_gene nb L reg (hits_of g l) = Ok r /\ out_of g (filter nonempty_res per) = r.
+Proof.
+  induction gs as [|g0 gs IH]; intros per Hnd H; cbn [mapM] in H.
+  - inversion H; subst. split; [intros gr []|intros g []].
+  - destruct (refine_gene nb L reg (hits_of g0 l)) as [r0|k] eqn:Er; cbn [bind] in H; [|discriminate].
+    destruct (mapM _ gs) as [per'|k] eqn:Em; cbn [bind] in H; [|discriminate].
+    inversion H; subst per. clear H. inversion Hnd as [|? ? Hn0 Hnd']; subst.
+    destruct (IH per' Hnd' eq_refl) as [J1 J2]. split.
+    + intros gr [<-|Hgr]; [left; reflexivity|right; apply J1; exact Hgr].
+    + assert (Hskip : forall g, g <> g0 ->
+                out_of g (filter nonempty_res ((g0, r0) :: per')) = out_of g (filter nonempty_res per')).
+      { intros g Hg. cbn [filter]. destruct (nonempty_res (g0, r0)); [|reflexivity].
+        unfold out_of. cbn [find fst]. destruct (g0 =? g) eqn:Eg; [lia|reflexivity]. }
+      intros g [<-|Hg].
+      * exists r0. split; [exact Er|]. cbn [filter]. destruct r0 as [|x xs].
+        -- cbn. unfold out_of. rewrite find_none_intro; [reflexivity|].
+           intros gr Hgr. apply filter_In in Hgr. destruct Hgr as [Hgr _].
+           destruct (fst gr =? g0) eqn:Eg; [|reflexivity]. exfalso. apply Hn0.
+           assert (fst gr = g0) by lia. subst g0. apply J1. exact Hgr.
+        -- cbn. unfold out_of. cbn [find fst]. rewrite Z.eqb_refl. reflexivity.
+      * destruct (J2 g Hg) as [r [R1 R2]]. exists r. split; [exact R1|].
+        rewrite Hskip; [exact R2|]. intros ->. contradiction.
+Qed.
+
+Lemma genes_of_NoDup l : NoDup (genes_of l).
+Proof.
+  unfold genes_of. apply (Permutation_NoDup (Permutation_sym (sort_by_perm gene_lt _))).
+  apply dedupe_NoDup. exact Z.eqb_eq.
+Qed.
+
+Lemma refine_all_coverage L reg l out : refine_all true L reg l = Ok out -> coverage_all L l out = true.
+Proof.
+  unfold refine_all, coverage_all. intros H.
+  destruct (mapM _ (genes_of l)) as [per|k] eqn:Em; cbn [bind] in H; [|discriminate].
+  inversion H; subst out. clear H.
+  destruct (mapM_refine_out_of true L reg l (genes_of l) per (genes_of_NoDup l) Em) as [_ J].
+  apply forallb_forall. intros g Hg. destruct (J g Hg) as [r [R1 R2]].
+  change (fun gr : Z * list hit => match snd gr with [] => false | _ :: _ => true end) with nonempty_res.
+  rewrite R2. exact (refine_gene_coverage L reg _ r R1).
 Qed.
 
 (* ------------------------------------------------------------------ the greedy pass *)
@@ -762,28 +1043,36 @@ Lemma hh_groups_spec limit sorted : StronglySorted Z.le (map h_st sorted) ->
   ForallOrdPairs (before limit) (hh_groups limit sorted) /\
   (forall G x, In G (hh_groups limit sorted) -> In x G -> In x sorted).
 Proof.
-  intros Hs. unfold hh_groups. destruct sorted as [|h0 t] eqn:E; [split; [constructor|intros G x []]|].
-  rewrite <- E in *.
-  destruct (fold_left (group_step limit) sorted ([], [h0], h_en h0)) as [[groups current] maxc] eqn:Ef.
-  destruct (group_fold_inv limit sorted [] [h0] (h_en h0) Hs) with (groups' := groups) (current' := current) (maxc' := maxc)
+  intros Hs. unfold hh_groups. destruct sorted as [|h0 t]; [split; [constructor|intros G x []]|].
+  cbn [map] in Hs. inversion Hs as [|? ? Hs' _]; subst.
+  destruct (fold_left (group_step limit) t ([], [h0], h_en h0)) as [[groups current] maxc] eqn:Ef.
+  destruct (group_fold_inv limit t [] [h0] (h_en h0) Hs') with (groups' := groups) (current' := current) (maxc' := maxc)
     as [I1 I2].
   - intros o [<-|[]]. lia.
   - intros G [].
   - constructor.
   - exact Ef.
   - split; [exact I1|]. intros G x HG Hx. destruct (I2 G HG x Hx) as [[<-|[]]|[Hr|[G0 [[] _]]]].
-    + rewrite E. left. reflexivity.
-    + exact Hr.
+    + left. reflexivity.
+    + right. exact Hr.
 Qed.
+
+Lemma hh_sort_lt_le cut a b : hh_sort_lt cut a b = true -> h_st a <= h_st b.
+Proof. unfold hh_sort_lt. destruct (rank_lt cut a b); lia. Qed.
+Lemma hh_sort_lt_ge cut a b : hh_sort_lt cut a b = false -> h_st b <= h_st a.
+Proof. unfold hh_sort_lt. destruct (rank_lt cut a b); lia. Qed.
+
+Lemma hh_sorted_by_start cut l : StronglySorted Z.le (map h_st (sort_by (hh_sort_lt cut) l)).
+Proof. apply sort_by_key_sorted_gen; [apply hh_sort_lt_le|apply hh_sort_lt_ge]. Qed.
 
 Lemma hmmer_no_overlap limit cutoffs hits out :
   hmmer_remove_overlapping limit cutoffs hits = Ok out -> noconf limit out /\ (forall x, In x out -> In x hits).
 Proof.
   unfold hmmer_remove_overlapping. destruct hits as [|h0 t] eqn:Eh; [discriminate|]. rewrite <- Eh.
   destruct (forallb _ hits); [|discriminate]. intros H. inversion H; subst out. clear H.
-  set (cut := fun i => match nth (Z.to_nat i) cutoffs None with Some c => c | None => 0 end).
-  set (sorted := sort_by hh_start_lt hits).
-  assert (Hs : StronglySorted Z.le (map h_st sorted)) by (apply (sort_by_key_sorted h_st)).
+  set (cut := cut_of cutoffs).
+  set (sorted := sort_by (hh_sort_lt cut) hits).
+  assert (Hs : StronglySorted Z.le (map h_st sorted)) by (apply hh_sorted_by_start).
   destruct (hh_groups_spec limit sorted Hs) as [G1 G2].
   split.
   - intros a b Ha Hb Hab. rewrite sort_by_In in Ha, Hb. rewrite in_flat_map in Ha, Hb.
@@ -798,14 +1087,181 @@ Qed.
 
 Lemma hmmer_best_kept limit cutoffs hits out :
   hmmer_remove_overlapping limit cutoffs hits = Ok out ->
-  let cut := fun i => match nth (Z.to_nat i) cutoffs None with Some c => c | None => 0 end in
-  forall G b rest, In G (hh_groups limit (sort_by hh_start_lt hits)) ->
+  let cut := cut_of cutoffs in
+  forall G b rest, In G (hh_groups limit (sort_by (hh_sort_lt cut) hits)) ->
     sort_by (rank_lt cut) G = b :: rest -> In b out.
 Proof.
   unfold hmmer_remove_overlapping. destruct hits as [|h0 t] eqn:Eh; [discriminate|]. rewrite <- Eh.
   destruct (forallb _ hits); [|discriminate]. intros H. inversion H; subst out. clear H.
   cbn zeta. intros G b rest HG Hb. rewrite sort_by_In. rewrite in_flat_map. exists G. split; [exact HG|].
   apply (best_of_group_head _ _ _ _ rest). exact Hb.
+Qed.
+
+(* multiplicity: no hit is returned more often than the input list holds it *)
+Lemma hh_eqb_eq a b : hh_eqb a b = true <-> a = b.
+Proof.
+  unfold hh_eqb. split.
+  - intros H. destruct a, b. cbn in H. f_equal; lia.
+  - intros ->. destruct b. cbn. lia.
+Qed.
+Lemma hcount_app x l m : hcount x (l ++ m) = hcount x l + hcount x m.
+Proof. induction l as [|y ys IH]; cbn [app hcount]; lia. Qed.
+Lemma hcount_nonneg x l : 0 <= hcount x l.
+Proof. induction l as [|y ys IH]; cbn [hcount]; [lia|]. destruct (hh_eqb x y); lia. Qed.
+Lemma hcount_perm x l m : Permutation l m -> hcount x l = hcount x m.
+Proof. induction 1; cbn [hcount]; lia. Qed.
+Lemma sub_hcount x l m : sub l m -> hcount x l <= hcount x m.
+Proof.
+  induction 1 as [|y l1 l2 H IH|y l1 l2 H IH]; cbn [hcount]; [lia| |lia].
+  destruct (hh_eqb x y); lia.
+Qed.
+
+Lemma concat_snoc {A} (gs : list (list A)) g : concat (gs ++ [g]) = concat gs ++ g.
+Proof. rewrite concat_app. cbn [concat]. rewrite app_nil_r. reflexivity. Qed.
+
+(* the groups, read in order, are the sorted list with repeated set members left out *)
+Lemma group_fold_sub limit : forall rest groups current maxc groups' current' maxc',
+  fold_left (group_step limit) rest (groups, current, maxc) = (groups', current', maxc') ->
+  sub (concat (groups' ++ [current'])) (concat (groups ++ [current]) ++ rest).
+Proof.
+  induction rest as [|h hs IH]; intros groups current maxc groups' current' maxc' E; cbn [fold_left] in E.
+  - inversion E; subst. rewrite app_nil_r. apply sub_refl.
+  - unfold group_step at 2 in E. destruct (maxc - limit <? h_st h).
+    + apply IH in E.
+      replace (concat ((groups ++ [current]) ++ [[h]]) ++ hs) with (concat (groups ++ [current]) ++ h :: hs) in E;
+        [exact E|].
+      rewrite (concat_snoc (groups ++ [current]) [h]). rewrite <- app_assoc. reflexivity.
+    + apply IH in E. unfold set_add in E. destruct (mem hh_eqb h current).
+      * apply sub_app_skip. exact E.
+      * replace (concat (groups ++ [current ++ [h]]) ++ hs) with (concat (groups ++ [current]) ++ h :: hs) in E;
+          [exact E|].
+        rewrite !concat_snoc. rewrite <- !app_assoc. reflexivity.
+Qed.
+
+Lemma hh_groups_sub limit sorted : sub (concat (hh_groups limit sorted)) sorted.
+Proof.
+  unfold hh_groups. destruct sorted as [|h0 t]; [constructor|].
+  destruct (fold_left (group_step limit) t ([], [h0], h_en h0)) as [[groups current] maxc] eqn:Ef.
+  apply group_fold_sub in Ef. exact Ef.
+Qed.
+
+Lemma best_fold_sub limit : forall l acc, exists m, fold_left (best_step limit) l acc = acc ++ m /\ sub m l.
+Proof.
+  induction l as [|h hs IH]; intros acc; cbn [fold_left].
+  - exists []. split; [rewrite app_nil_r; reflexivity|constructor].
+  - unfold best_step at 2. destruct (existsb (conflict limit h) acc).
+    + destruct (IH acc) as [m [E S]]. exists m. split; [exact E|apply sub_skip; exact S].
+    + destruct (IH (acc ++ [h])) as [m [E S]]. exists (h :: m). split; [rewrite E, <- app_assoc; reflexivity|apply sub_keep; exact S].
+Qed.
+
+Lemma best_of_group_hcount limit cut x g : hcount x (best_of_group limit cut g) <= hcount x g.
+Proof.
+  unfold best_of_group. destruct (best_fold_sub limit (sort_by (rank_lt cut) g) []) as [m [E S]].
+  rewrite E. cbn [app]. rewrite <- (hcount_perm x _ _ (sort_by_perm (rank_lt cut) g)). apply sub_hcount. exact S.
+Qed.
+
+Lemma hcount_flat_map x (f : list hhit -> list hhit) : (forall g, hcount x (f g) <= hcount x g) ->
+  forall gs, hcount x (flat_map f gs) <= hcount x (concat gs).
+Proof.
+  intros Hf. induction gs as [|g gs IH]; cbn [flat_map concat]; [lia|].
+  rewrite !hcount_app. specialize (Hf g). lia.
+Qed.
+
+Lemma hmmer_multiplicity limit cutoffs hits out :
+  hmmer_remove_overlapping limit cutoffs hits = Ok out -> forall x, hcount x out <= hcount x hits.
+Proof.
+  unfold hmmer_remove_overlapping. destruct hits as [|h0 t] eqn:Eh; [discriminate|]. rewrite <- Eh.
+  destruct (forallb _ hits); [|discriminate]. intros H. inversion H; subst out. clear H. intros x.
+  set (cut := cut_of cutoffs).
+  rewrite (hcount_perm x _ _ (sort_by_perm (hh_sort_lt cut) _)).
+  apply Z.le_trans with (hcount x (concat (hh_groups limit (sort_by (hh_sort_lt cut) hits)))).
+  - apply hcount_flat_map. intros g. apply best_of_group_hcount.
+  - rewrite <- (hcount_perm x _ _ (sort_by_perm (hh_sort_lt cut) hits)). apply sub_hcount. apply hh_groups_sub.
+Qed.
+
+Lemma hmmer_nomult limit cutoffs hits out :
+  hmmer_remove_overlapping limit cutoffs hits = Ok out -> hh_nomult hits out = true.
+Proof.
+  intros H. unfold hh_nomult. apply forallb_forall. intros x _.
+  pose proof (hmmer_multiplicity limit cutoffs hits out H x). lia.
+Qed.
+
+(* order independence: on hits with positive scores and cutoffs the sort key
+   (protein_start, ranking_stats) is a strict total order *)
+Definition hh_pos (cut : Z -> Z) (h : hhit) : Prop := 0 < h_sc h /\ 0 < cut (h_id h).
+
+Lemma hh_sort_lt_irrefl cut a : hh_sort_lt cut a a = false.
+Proof. unfold hh_sort_lt, rank_lt. lia. Qed.
+
+Lemma ratio_lt_le ca cb cc sa sb sc : 0 < sa -> 0 < sb -> 0 < sc ->
+  ca * sb < cb * sa -> cb * sc <= cc * sb -> ca * sc < cc * sa.
+Proof.
+  intros Ha Hb Hc H1 H2.
+  assert (X1 : ca * sb * sc < cb * sa * sc) by (apply Z.mul_lt_mono_pos_r; assumption).
+  assert (X2 : cb * sc * sa <= cc * sb * sa) by (apply Z.mul_le_mono_nonneg_r; lia).
+  apply (Z.mul_lt_mono_pos_r sb); [exact Hb|].
+  replace (ca * sc * sb) with (ca * sb * sc) by ring.
+  replace (cc * sa * sb) with (cc * sb * sa) by ring.
+  replace (cb * sa * sc) with (cb * sc * sa) in X1 by ring. lia.
+Qed.
+Lemma ratio_le_lt ca cb cc sa sb sc : 0 < sa -> 0 < sb -> 0 < sc ->
+  ca * sb <= cb * sa -> cb * sc < cc * sb -> ca * sc < cc * sa.
+Proof.
+  intros Ha Hb Hc H1 H2.
+  assert (X1 : ca * sb * sc <= cb * sa * sc) by (apply Z.mul_le_mono_nonneg_r; lia).
+  assert (X2 : cb * sc * sa < cc * sb * sa) by (apply Z.mul_lt_mono_pos_r; assumption).
+  apply (Z.mul_lt_mono_pos_r sb); [exact Hb|].
+  replace (ca * sc * sb) with (ca * sb * sc) by ring.
+  replace (cc * sa * sb) with (cc * sb * sa) by ring.
+  replace (cb * sa * sc) with (cb * sc * sa) in X1 by ring. lia.
+Qed.
+Lemma ratio_eq_eq ca cb cc sa sb sc : 0 < sb ->
+  ca * sb = cb * sa -> cb * sc = cc * sb -> ca * sc = cc * sa.
+Proof.
+  intros Hb H1 H2. apply (Z.mul_reg_r _ _ sb); [lia|].
+  replace (ca * sc * sb) with (ca * sb * sc) by ring. rewrite H1.
+  replace (cb * sa * sc) with (cb * sc * sa) by ring. rewrite H2. ring.
+Qed.
+
+Lemma hh_sort_lt_trans cut a b c : hh_pos cut a -> hh_pos cut b -> hh_pos cut c ->
+  hh_sort_lt cut a b = true -> hh_sort_lt cut b c = true -> hh_sort_lt cut a c = true.
+Proof.
+  unfold hh_pos, hh_sort_lt, rank_lt. intros [Sa _] [Sb _] [Sc _].
+  pose proof (ratio_lt_le (cut (h_id a)) (cut (h_id b)) (cut (h_id c)) (h_sc a) (h_sc b) (h_sc c) Sa Sb Sc) as T1.
+  pose proof (ratio_le_lt (cut (h_id a)) (cut (h_id b)) (cut (h_id c)) (h_sc a) (h_sc b) (h_sc c) Sa Sb Sc) as T2.
+  pose proof (ratio_eq_eq (cut (h_id a)) (cut (h_id b)) (cut (h_id c)) (h_sc a) (h_sc b) (h_sc c) Sb) as T3.
+  unfold hh_len. lia.
+Qed.
+
+Lemma hh_sort_lt_total cut a b : hh_pos cut a -> hh_pos cut b ->
+  hh_sort_lt cut a b = false -> hh_sort_lt cut b a = false -> a = b.
+Proof.
+  unfold hh_pos, hh_sort_lt, rank_lt, hh_len. intros [_ Ca] [_ Cb] H1 H2.
+  assert (Ei : h_id a = h_id b) by lia.
+  assert (Es : h_st a = h_st b) by lia.
+  assert (Ee : h_en a = h_en b) by lia.
+  assert (En : cut (h_id a) * h_sc b = cut (h_id b) * h_sc a) by lia.
+  rewrite <- Ei in En. apply Z.mul_reg_l in En; [|lia].
+  destruct a, b. cbn in *. f_equal; lia.
+Qed.
+
+Lemma hmmer_perm limit cutoffs l l' :
+  (forall h, In h l -> hh_pos (cut_of cutoffs) h) -> Permutation l l' ->
+  hmmer_remove_overlapping limit cutoffs l = hmmer_remove_overlapping limit cutoffs l'.
+Proof.
+  intros Hpos Hp. unfold hmmer_remove_overlapping.
+  assert (Es : sort_by (hh_sort_lt (cut_of cutoffs)) l = sort_by (hh_sort_lt (cut_of cutoffs)) l').
+  { apply (sort_by_perm_eq _ (hh_pos (cut_of cutoffs)) (hh_sort_lt_irrefl _) (hh_sort_lt_trans _) (hh_sort_lt_total _));
+      [apply Forall_forall; exact Hpos|exact Hp]. }
+  assert (Ef : forall f, forallb f l = forallb f l').
+  { intros f. apply eq_true_iff_eq. rewrite !forallb_forall. split; intros G x Hx; apply G.
+    - apply (Permutation_in _ (Permutation_sym Hp)). exact Hx.
+    - apply (Permutation_in _ Hp). exact Hx. }
+  destruct l as [|a t]; destruct l' as [|a' t'].
+  - reflexivity.
+  - apply Permutation_nil in Hp. discriminate.
+  - apply Permutation_sym in Hp. apply Permutation_nil in Hp. discriminate.
+  - rewrite Ef. cbn zeta. rewrite Es. reflexivity.
 Qed.
 
 (* ------------------------------------------------------------------ docking domains *)
@@ -1002,23 +1458,19 @@ Proof.
   intros k [<-|[]]. cbn. lia.
 Qed.
 
-Lemma C13_merge_spans_refuted_proof : exists L reg hits h,
-  In h hits /\ is_complete L h = true /\ refine_gene true L reg hits = Ok [] /\
-  exists a b, In a hits /\ In b hits /\ prof a = prof b /\ en (merge a b) < en b.
-Proof.
-  exists (fun _ => 100), (fun _ => false), [mkHit 0 10 20 5 20; mkHit 0 10 80 1 100], (mkHit 0 10 80 1 100).
-  split; [right; left; reflexivity|]. split; [vm_compute; reflexivity|]. split; [vm_compute; reflexivity|].
-  exists (mkHit 0 10 20 5 20), (mkHit 0 10 80 1 100).
-  split; [left; reflexivity|]. split; [right; left; reflexivity|]. split; [reflexivity|]. vm_compute. reflexivity.
-Qed.
+Lemma C13_merge_spans_proof : forall a b, prof a = prof b ->
+  covers (merge a b) a = true /\ covers (merge a b) b = true.
+Proof. intros a b H. split; apply covers_iff; [apply merge_covers_l|apply merge_covers_r; exact H]. Qed.
 
-Lemma C13_hmmer_nodup_refuted_proof : exists limit cutoffs h,
-  hmmer_remove_overlapping limit cutoffs [h] = Ok [h; h].
-Proof. exists 10, [Some 10], (mkHH 0 0 5 20). vm_compute. reflexivity. Qed.
-
-Lemma C13_hmmer_order_refuted_proof : exists limit cutoffs l l',
-  Permutation l l' /\ hmmer_remove_overlapping limit cutoffs l <> hmmer_remove_overlapping limit cutoffs l'.
+Lemma C13_merge_keeps_complete_proof : forall L reg hits out r1 x,
+  refine_gene true L reg hits = Ok out -> remove_overlapping_l L (canonical hits) = Ok r1 ->
+  In x r1 -> is_complete L x = true ->
+  exists h, In h out /\ prof h = prof x /\ st h <= st x /\ en x <= en h.
 Proof.
-  exists 10, [Some 100; Some 100], [mkHH 1 43 52 20; mkHH 0 43 45 20], [mkHH 0 43 45 20; mkHH 1 43 52 20].
-  split; [apply perm_swap|]. vm_compute. discriminate.
+  intros L reg hits out r1 x H Hr Hx Hc. pose proof (refine_gene_coverage L reg hits out H) as G.
+  unfold gene_coverage in G. destruct (canonical hits) as [|c t]; [discriminate|].
+  cbn [remove_overlapping_l] in Hr. inversion Hr; subst r1.
+  rewrite forallb_forall in G. specialize (G x Hx). rewrite Hc in G. cbn [negb orb] in G.
+  apply existsb_exists in G. destruct G as [h [Hh Hcov]]. exists h. split; [exact Hh|].
+  apply covers_iff in Hcov. exact Hcov.
 Qed.
